@@ -372,6 +372,152 @@ def keygen_structure(run, ob, system, family, op, params, ins, k, timeout=60):
     return ob.set(HOLDS)
 
 
+class _SpecOnly:
+    """Minimal stand-in for csmt.Enc with no constraint system: lets a specification be evaluated on
+    CONCRETE inputs (python ints) and symbolic outputs, to ask the solver whether the inputs are in the
+    operation's domain (exists an output satisfying the specification)."""
+
+    def __init__(self, P, extra=None):
+        self.P = P
+        self.lines = []
+        self.nq = 0
+        self.ub = {}
+        self.side = []
+        self.extra = extra or {}
+        self.order = []
+        self._enc = None
+
+    def fresh(self, pfx, lo=None, hi=None):
+        self.nq += 1
+        n = f"{pfx}{self.nq}"
+        self.lines.append(f"(declare-const {n} Int)")
+        if lo is not None:
+            self.lines.append(f"(assert (and (<= {I(lo)} {n}) (<= {n} {I(hi)})))")
+        return n
+
+    def bound(self, a):
+        return a + 1 if isinstance(a, int) else self.ub.get(a, self.P)
+
+    def set_bound(self, a, B):
+        pass
+
+    def radix_hint(self, x, bits):
+        return False
+
+    def signed(self, a):
+        if isinstance(a, int):
+            return I(csmt.sym(a, self.P))
+        return f"(ite (< {a} {self.P // 2 + 1}) {a} (- {a} {self.P}))"
+
+    def lin_smt(self, terms, const):
+        return csmt.Enc.lin_smt(self, terms, const)
+
+    def modeq(self, terms, const, as_bool=False):
+        q = self.fresh("q")
+        f = f"(= {self.lin_smt([(c, n) for c, n in terms if c], const)} (* {self.P} {q}))"
+        if as_bool:
+            return f
+        self.lines.append(f"(assert {f})")
+
+    def define_mod(self, terms, const=0):
+        P = self.P
+        ints = sum(c * n for c, n in terms if isinstance(n, int))
+        terms = [(csmt.sym(c, P), n) for c, n in terms if not isinstance(n, int) and c % P]
+        const = (const + ints) % P
+        if not terms:
+            return const
+        r = self.fresh("r", 0, P - 1)
+        self.modeq(terms + [(-1, r)], csmt.sym(const, P))
+        return r
+
+    def fmul(self, a, b):
+        P = self.P
+        if isinstance(a, int) and isinstance(b, int):
+            return a * b % P
+        if isinstance(a, int):
+            a, b = b, a
+        if isinstance(b, int):
+            return self.define_mod([(b, a)])
+        t = self.fresh("m", 0, P - 1)
+        self.lines.append(f"(assert (= {t} (mod (* {a} {b}) {P})))")
+        return t
+
+    def named_sum(self, terms):
+        ints = sum(c * a for c, a in terms if isinstance(a, int))
+        terms = [(c, a) for c, a in terms if not isinstance(a, int) and c]
+        if not terms:
+            return I(ints)
+        return self.lin_smt(terms, ints)
+
+    def residue(self, terms, const, m):
+        ints = sum(c * csmt.sym(a, self.P) for c, a in terms if isinstance(a, int))
+        terms = [(c, a) for c, a in terms if not isinstance(a, int) and c]
+        if not terms:
+            return (const + ints) % m
+        r = self.fresh("res", 0, m - 1)
+        q = self.fresh("rq")
+        body = "(+ " + I(const + ints) + " " + " ".join(f"(* {I(c)} {self.signed(a)})" for c, a in terms) + ")"
+        self.lines.append(f"(assert (= {body} (+ {r} (* {m} {q}))))")
+        return r
+
+    def addmod(self, a, b, m, sign=1):
+        if isinstance(a, int) and isinstance(b, int):
+            return (a + sign * b) % m
+        r = self.fresh("am", 0, m - 1)
+        q = self.fresh("aq", -1, 1)
+        A_ = lambda x: I(x) if isinstance(x, int) else x
+        self.lines.append(f"(assert (= (+ {A_(a)} (* {I(sign)} {A_(b)})) (+ {r} (* {m} {q}))))")
+        return r
+
+    def MM(self, a, b, m):
+        if isinstance(a, int) and isinstance(b, int):
+            return a * b % m
+        t = self.fresh("mm", 0, m - 1)
+        A_ = lambda x: I(x) if isinstance(x, int) else x
+        self.lines.append(f"(assert (= {t} (mod (* {A_(a)} {A_(b)}) {m})))")
+        return t
+
+    def zero_rep_lemma(self, limbs):
+        pass
+
+
+def in_domain(spec, ins_vals, n_out, P, extra=None, timeout=20):
+    """True / False / None: do concrete instance inputs admit SOME output under the specification?"""
+    so = _SpecOnly(P, extra)
+    outs = [so.fresh("out", 0, P - 1) for _ in range(n_out)]
+    try:
+        f = spec(so, list(ins_vals), outs)
+    except Exception:
+        return None
+    r = solvers.solve("(set-logic ALL)\n" + "\n".join(so.lines) + f"\n(assert {f})", timeout=timeout)
+    return True if r.status == "sat" else (False if r.status == "unsat" else None)
+
+
+def boundary_tuples(n_in, given, params, P, rnd, count):
+    """candidate instance-input tuples from boundary values (filtered by the domain query afterwards)"""
+    vals = {0, 1, 2, 3, P - 1, P - 2, (P - 1) // 2, (P + 1) // 2}
+    for k in (1, 2, 7, 8, 9, 15, 16, 17, 31, 32, 63, 64, 65, 127, 128, 253, 254):
+        vals |= {(1 << k) - 1, 1 << k, (1 << k) + 1}
+    for v in params.values():
+        if isinstance(v, int) and not isinstance(v, bool):
+            vals |= {v % P, (v - 1) % P, (v + 1) % P}
+            if 0 < v < 300:
+                vals |= {(1 << v) - 1, (1 << v) % P, ((1 << v) + 1) % P, ((1 << v) - 2) % P}
+    for g in given:
+        vals |= {x % P for x in g}
+    vals = sorted(vals)
+    out = []
+    for v in vals[:40]:
+        out.append([v] * n_in)
+    for _ in range(count * 6):
+        out.append([rnd.choice(vals) for _ in range(n_in)])
+    for _ in range(count):
+        a = rnd.choice(vals)
+        out.append([(a + rnd.choice([-1, 0, 1])) % P for _ in range(n_in)])
+    rnd.shuffle(out)
+    return out
+
+
 def pstr(params):
     params = {k: v for k, v in params.items() if k != "prog"}
     return ",".join(f"{k}={(hex(v)[:14] + '..') if isinstance(v, int) and v > 10**9 else (str(v) if not isinstance(v, (list, tuple)) else 'list' + str(len(v)))}" for k, v in sorted(params.items()))
@@ -447,6 +593,42 @@ def run_family(run, family, entries, timeout=60, workers=8, only=None, engine="C
                 ob.set(VIOLATION, f"the real synthesis/witness generation panics on admissible inputs: {ex}", replay=path)
             except ExtractError as ex:
                 ob.set(INCONCLUSIVE, f"alt input extraction failed: {ex}")
+        if ob.status == HOLDS and ent.get("boundary") and not (only and only not in oid):
+            # boundary completeness sampling: admissible boundary inputs (domain decided by the solver on
+            # the specification alone) must be accepted by the real chip. Concrete runs: they extend the
+            # alternative inputs, they are not the deciding step of the soundness claim.
+            import random as _r
+            rnd = _r.Random(int(core.stable_hash(oid + str(core.seed())), 16))
+            n_in = len(ent["ins"])
+            n_out = None
+            tried = admitted = 0
+            budget = ent.get("boundary") if isinstance(ent.get("boundary"), int) else (6 if core.tier() == "quick" else 40)
+            try:
+                base_sys = extract(family, ent["op"], ent["params"], ent["ins"], ent["k"])
+                n_out = len(base_sys.outs)
+                for tup in boundary_tuples(n_in, [ent["ins"]] + ent.get("alt", []), ent["params"], base_sys.P, rnd, budget):
+                    if admitted >= budget or tried >= budget * 5:
+                        break
+                    tried += 1
+                    if ent.get("pre") and not ent["pre"](tup):
+                        continue          # caller-side precondition (documented responsibility of the caller)
+                    dom = in_domain(ent["spec"], tup, n_out, base_sys.P, base_sys.d.get("extra"))
+                    if dom is not True:
+                        continue
+                    admitted += 1
+                    s3 = extract(family, ent["op"], ent["params"], tup, ent["k"])
+                    if not s3.d["honest_verify"]:
+                        ob.key = ob.key + ":honest-rejected"
+                        path = run.write_replay(ob, dict(kind="honest-rejected", cx=cx_args(family, ent["op"], ent["params"], tup, ent["k"])))
+                        ob.set(VIOLATION, f"real MockProver rejects the honest witness of {ent['op']} {pstr(ent['params'])} on the admissible boundary inputs {tup}", replay=path)
+                        break
+                ob.boundary = (tried, admitted)
+            except ExtractPanic as ex:
+                ob.key = ob.key + ":honest-panics"
+                ob.set(VIOLATION, f"the real synthesis/witness generation panics on admissible boundary inputs {tup}: {ex}",
+                       replay=run.write_replay(ob, dict(kind="honest-panics", cx=cx_args(family, ent["op"], ent["params"], tup, ent["k"]))))
+            except ExtractError as ex:
+                ob.set(INCONCLUSIVE, f"boundary input extraction failed: {ex}")
         run.log(f"{ob.status:12s} {oid} {ob.solver or ''} {ob.solver_s:.1f}s {ob.detail[:160]}")
         if not (only and only not in oid):
             ob2 = core.Ob(oid + ":keygen", engine, "the verifying key generated by the real keygen_vk commits to the same copy constraints and fixed columns as the development-time checker sees",
